@@ -48,6 +48,7 @@ def run(chk: Check) -> None:
     run_mro_walk_dependencies(chk, ix)
     run_module_tests_not_substrings(chk, ix)
     run_var_snapshot_flags(chk, ix)
+    run_relative_import_ids(chk, ix)
 
     r1 = chk.rule("R03.1", "reprocess_nodes performs snapshot < clear < strip < analyse < merge < check < snapshot < compare < update_deps on every normal path, returns the compared triggers, and the propagation loop re-queues error targets and resets protocol caches first", floor=12)
     rp = ix.func("mypy.server.update.reprocess_nodes")
@@ -719,3 +720,37 @@ def run_var_snapshot_flags(chk: Check, ix) -> None:
             r14.ok(key, sd.loc(var_ret))
         else:
             r14.violation(key, f"mypy/checkmember.py:{ln}", f"checkmember.py:{ln} reports an error depending on `{fl}`, but snapshot_definition's Var entry compares only {sorted(snap)}: when the flag flips and the declared type stays the same, no trigger fires for the attribute and the daemon keeps the old answer")
+
+
+def run_relative_import_ids(chk: Check, ix) -> None:
+    """R03.15: the `id` of a `from ... import` node is only meaningful together with its `relative` level."""
+    r15 = chk.rule("R03.15", "ImportFrom.id / ImportAll.id hold the module text as written (`from . import b` has id '' and relative 1); a function outside the parsers and printers that reads `.id` of such a node also reads `.relative` or passes the node through correct_relative_import / correct_rel_imp before comparing it with a module name (refresh_suppressed_submodules compared the raw id with the package name, so a submodule added later was never picked up through a relative import)", floor=5)
+    skip = ("mypy.fastparse", "mypy.nativeparse", "mypy.nodes", "mypy.strconv", "mypy.treetransform", "mypy.stubgen", "mypy.traverser", "mypy.stubutil")
+    n = 0
+    for mn, m in sorted(ix.modules.items()):
+        if not mn.startswith("mypy.") or mn.startswith("mypy.test") or mn in skip:
+            continue
+        for f in list(m.functions.values()) + [mm for c in m.classes.values() for mm in c.methods.values()]:
+            names = set()
+            a_ = f.node.args
+            for a in a_.posonlyargs + a_.args + a_.kwonlyargs:
+                if a.annotation is not None and any(t in norm(a.annotation) for t in ("ImportFrom", "ImportAll")):
+                    names.add(a.arg)
+            for c in ast.walk(f.node):
+                if isinstance(c, ast.Call) and norm(c.func) == "isinstance" and len(c.args) == 2 and isinstance(c.args[0], ast.Name) and any(t in norm(c.args[1]) for t in ("ImportFrom", "ImportAll")):
+                    names.add(c.args[0].id)
+            if not names:
+                continue
+            reads = [x for x in ast.walk(f.node) if isinstance(x, ast.Attribute) and x.attr == "id" and isinstance(x.value, ast.Name) and x.value.id in names and isinstance(x.ctx, ast.Load)]
+            if not reads:
+                continue
+            n += 1
+            rel = any(isinstance(x, ast.Attribute) and x.attr == "relative" and isinstance(x.value, ast.Name) and x.value.id in names for x in ast.walk(f.node))
+            corr = any(isinstance(c, ast.Call) and norm(c.func).split(".")[-1] in ("correct_relative_import", "correct_rel_imp") and any(isinstance(x, ast.Name) and x.id in names for a in c.args for x in ast.walk(a)) for c in ast.walk(f.node))
+            key = f"{f.qualname}: ImportFrom/ImportAll `.id` is read together with `.relative`"
+            if rel or corr:
+                r15.ok(key, f.loc(reads[0]))
+            else:
+                r15.violation(key, f.loc(reads[0]), f"`{norm(reads[0])}` is used as if it were an absolute module name; for `from . import b` it is the empty string (level in `.relative`), so the comparison never matches for relative imports")
+    if n < 5:
+        raise AnalysisError(f"only {n} functions reading ImportFrom/ImportAll ids found")
